@@ -222,6 +222,31 @@ func (hash *SexpHash) HashGet(env *Zlisp, key Sexp) (res Sexp, err error) {
 	return val, nil
 }
 
+// hashKeyOf gives the key that a caller means: an index expression
+// h[6] arrives as the one-element array [6] and denotes the key 6.
+// HashSet and HashGet have always read it that way; every other
+// routine that takes a key from a caller has to agree with them.
+func hashKeyOf(key Sexp) Sexp {
+	if arr, isArray := key.(*SexpArray); isArray && len(arr.Val) == 1 {
+		return arr.Val[0]
+	}
+	return key
+}
+
+// storedValue looks up a key exactly as it is stored (the keys in
+// KeyOrder are stored keys, not caller keys: no unwrapping, no dot
+// path interpretation).
+func (hash *SexpHash) storedValue(key Sexp) (Sexp, error) {
+	val, err := hash.HashGetDefault(hash.Env, key, SexpEnd)
+	if err != nil {
+		return SexpNull, err
+	}
+	if val == SexpEnd {
+		return SexpNull, fmt.Errorf("%s has no field '%s' [err 1]", hash.TypeName, key.SexpString(nil))
+	}
+	return val, nil
+}
+
 func (hash *SexpHash) HashGetDefault(env *Zlisp, key Sexp, defaultval Sexp) (Sexp, error) {
 	hashval, err := HashExpression(env, key)
 	if err != nil {
@@ -406,6 +431,7 @@ func (hash *SexpHash) HashSet(key Sexp, val Sexp) error {
 }
 
 func (hash *SexpHash) HashDelete(key Sexp) error {
+	key = hashKeyOf(key)
 	hashval, err := HashExpression(nil, key)
 	if err != nil {
 		return err
@@ -491,7 +517,7 @@ func (hash *SexpHash) HashPairi(pos int) (*SexpPair, error) {
 	found := false
 	for k := pos; k < lenKeyOrder; k++ {
 		key = hash.KeyOrder[k]
-		val, err = hash.HashGet(nil, key)
+		val, err = hash.storedValue(key)
 
 		if err == nil {
 			found = true
@@ -947,7 +973,7 @@ func (hash *SexpHash) SexpString(ps *PrintState) string {
 	lastKey := hash.NumKeys
 	onKey := 0
 	for _, key := range hash.KeyOrder {
-		val, err := hash.HashGet(hash.Env, key)
+		val, err := hash.storedValue(key)
 		if err == nil {
 			onKey++
 			switch s := key.(type) {
